@@ -202,7 +202,7 @@ def check_case(case, ctx):
     U = w.generate(account, tuple(interval))
     secrets, scalars = secret_set(case, rm, U, testnet, account, interval)
     what = "%s wallet, testnet=%s, account=%d, interval=%r" % (case["source"], testnet, account, interval)
-    st_, F = call(M.paranoia_mode, U)
+    st_, F = call(M.paranoia_mode, data=U) if case["cli"] else call(M.paranoia_mode, U)   # __main__ uses the keyword form
     if st_ == "exc":
         raise Violation("C15/filter/raised", "%s: paranoia_mode raised %r" % (what, F))
     outputs = [("returned dict", F)]
